@@ -197,7 +197,7 @@ func c27Run(c c27Case) *eng.Fail {
 
 func init() {
 	checks["C27"] = eng.Check{
-		Rule: "NewConstUint/NewConstInt: ALL uint8,int8,uint16,int16 values x widths 1..4; uint32/int32/uint64/int64 boundary alphabets (every 2^k, 2^k-1, 2^k+1 and negatives) x widths 1..9; ConstFromUint/Int on the same values; ConstUint[uint8..uint64] on every constant of width 1..3 over bytes {00,01,7f,80,ff} and boundary constants of widths 4..9; NewConst with shorter/equal/longer source slices followed by mutation of the source, WithWidth to every width. Non-trivial = make case where the value is outside the range of at least one smaller width (i.e. not in -128..127).",
+		Rule: "NewConstUint/NewConstInt: ALL uint8,int8,uint16,int16 values x widths 1..4; uint32/int32/uint64/int64 boundary alphabets (every 2^k, 2^k-1, 2^k+1 and negatives) x widths 1..9, 15..17, 31..33, 39, 40, 63..65, 128, 200, 255; ConstFromUint/Int on the same values; ConstUint[uint8..uint64] on every constant of width 1..3 over bytes {00,01,7f,80,ff} and boundary constants of widths 4..9; NewConst with shorter/equal/longer source slices followed by mutation of the source, WithWidth to every width. Non-trivial = make case where the value is outside the range of at least one smaller width (i.e. not in -128..127).",
 		Run: func(r *eng.Run) {
 			do := func(c c27Case) {
 				f := c27Run(c)
@@ -237,7 +237,7 @@ func init() {
 			}
 			us = append(us, 0, math.MaxUint64, math.MaxUint64-1, 200, 0x8000, 0xff80, 0xc8)
 			for _, u := range us {
-				for w := 1; w <= 9; w++ {
+				for _, w := range []int{1, 2, 3, 4, 5, 6, 7, 8, 9, 15, 16, 17, 31, 32, 33, 39, 40, 63, 64, 65, 128, 200, 255} {
 					do(c27Case{Op: "make", Type: "u64", Val: fmt.Sprint(u), W: w})
 					do(c27Case{Op: "make", Type: "i64", Val: fmt.Sprint(int64(u)), W: w})
 					do(c27Case{Op: "make", Type: "i64", Val: fmt.Sprint(-int64(u)), W: w})
@@ -251,6 +251,16 @@ func init() {
 				}
 				do(c27Case{Op: "from", Type: "i64", Val: fmt.Sprint(int64(u))})
 				do(c27Case{Op: "from", Type: "i32", Val: fmt.Sprint(int32(u))})
+			}
+			for _, w := range []int{16, 31, 32, 33, 64, 255} {
+				for _, v := range []int{0, 1, 127, 128, 255, 256, 32767, 32768, 65535} {
+					do(c27Case{Op: "make", Type: "u16", Val: fmt.Sprint(v), W: w})
+					do(c27Case{Op: "make", Type: "i16", Val: fmt.Sprint(int16(uint16(v))), W: w})
+					if v < 256 {
+						do(c27Case{Op: "make", Type: "u8", Val: fmt.Sprint(v), W: w})
+						do(c27Case{Op: "make", Type: "i8", Val: fmt.Sprint(int8(uint8(v))), W: w})
+					}
+				}
 			}
 			r.Sample(c27Case{Op: "make", Type: "i16", Val: "200", W: 1})
 			// read back
